@@ -763,7 +763,9 @@ LEVEL_TEXT = ("Proved in Lean 4 about the executable model the driver runs (all 
               "(Lean `Char`) fromCodes/utf32toUtf8 write exactly Lean core's UTF-8 (String.utf8EncodeChar), chars()/utf8toUtf32 return the code points "
               "(UTF-32->UTF-8->UTF-32 = id), dataw()/utf8toUtf16 give the standard UTF-16 with surrogate pairs, String(wchar_t*)/utf16toUtf8 give back the "
               "UTF-8 (UTF-8->UTF-16->UTF-8 = id), likewise String(Array<wchar_t>) and the in-place fixW(), count() = chars().length = number of iteration steps and the iteration advances by utf8Size; the unit "
-              "budget n yields exactly the first n characters; U+0000 (the one scalar value a C string cannot hold) acts as terminator in fromCodes, count, chars, iteration and dataw "
+              "budget n yields exactly the first n characters (also for the 16-bit converters, where a surrogate pair costs one: budget_utf8toUtf16, budget_utf16toUtf8); toUpperCase/toLowerCase of valid text are valid text "
+              "(standard UTF-8 of non-NUL scalar values) with the same count()/chars()/iteration length (case_valid_text, case_preserves_count; K op cvalid); "
+              "U+0000 (the one scalar value a C string cannot hold) acts as terminator in fromCodes, count, chars, iteration and dataw "
               "(nul_truncates); wlength() = number of UTF-16 units on valid text and <= length() on all bytes (op wlen). "
               "For EVERY byte string / 32-bit unit string containing a terminator (ill-formed, truncated, "
               "overlong, NUL inside): no converter, count(), enumerator, case function or equalsNocase reads outside the allocation, outputs fit the "
